@@ -1,4 +1,6 @@
 import Tibc.World
+import Tibc.LC.Tendermint
+import Tibc.LC.Status
 /-
   Line-protocol driver: reads one operation per line on stdin, runs the model, prints one
   canonical outcome line per operation. Core Lean only.
@@ -151,6 +153,40 @@ def dumpReg (u : Univ) (s : State) : String :=
 structure St where
   w : World := World.init
   u : Univ := {}
+  tm : String → Option TM.Client := fun _ => none
+
+namespace TMD
+open TM
+
+def Hv (vs : List Val) : Digest := ",".intercalate (vs.map (fun v => s!"{v.addr}:{v.power}"))
+
+def parseVals (tok : String) : Option (List Val) :=
+  if tok == "-" then some [] else
+  (tok.splitOn ",").mapM (fun x => match x.splitOn ":" with
+    | [a, p] => p.toNat?.map (fun n => (⟨a, n⟩ : Val))
+    | _ => none)
+
+def parseCommit (tok : String) : Option (List CSig) :=
+  if tok == "-" then some [] else
+  (tok.splitOn ",").mapM (fun x => match x.splitOn ":" with
+    | [f, a, ok] =>
+      let flag := if f == "c" then Flag.commit else if f == "n" then Flag.nil else Flag.absent
+      some (⟨flag, a, ok == "1"⟩ : CSig)
+    | _ => none)
+
+def parseHeight (tok : String) : Option Height :=
+  match tok.splitOn "." with
+  | [r, h] => do let r ← r.toNat?; let h ← h.toNat?; pure ⟨r, h⟩
+  | _ => none
+
+def hStr (h : Height) : String := s!"{h.rev}.{h.h}"
+
+def dump (cl : TM.Client) : String :=
+  let cs := cl.heights.filterMap (fun h => (cl.cons h).map (fun c =>
+    s!"{hStr h}:{c.time}:{c.root}:{c.nextVals}:{(cl.processed h).getD 0}"))
+  s!"latest={hStr cl.latest} cons=[{";".intercalate cs}]"
+
+end TMD
 
 def newEvents (before after : State) : String :=
   let n := before.core.evlog.length
@@ -307,6 +343,54 @@ def stepLine (st : St) (line : String) : St × String :=
     let s := st.w c
     let s' : State := { s with core := { s.core with authority := a } }
     ({ st with w := upd st.w c s' }, "res=ok")
+  | ["tm.create", name, num, den, period, drift, h0, t0, root, nextVals, now] =>
+    match num.toNat?, den.toNat?, period.toNat?, drift.toNat?, TMD.parseHeight h0, t0.toNat?, TMD.parseVals nextVals, now.toNat? with
+    | some num, some den, some pd, some dr, some h0, some t0, some nv, some now =>
+      let c0 : TM.Cons := ⟨t0, root, TMD.Hv nv⟩
+      let cl : TM.Client :=
+        { trustNum := num
+          trustDen := den
+          period := pd
+          drift := dr
+          latest := h0
+          cons := (fun h => if h = h0 then some c0 else none)
+          heights := [h0]
+          processed := (fun h => if h = h0 then some now else none) }
+      ({ st with tm := upd st.tm name (some cl) }, s!"res=ok | {TMD.dump cl}")
+    | _, _, _, _, _, _, _, _ => bad
+  | ["tm.update", name, now, hh, ht, app, vh, nvh, vals, commit, th, tvals, basic] =>
+    match st.tm name, now.toNat?, TMD.parseHeight hh, ht.toNat?, TMD.parseVals vals, TMD.parseCommit commit,
+          TMD.parseHeight th, TMD.parseVals tvals with
+    | some cl, some now, some hh, some ht, some vals, some commit, some th, some tvals =>
+      let hdr : TM.Header :=
+        { height := hh
+          time := ht
+          appHash := app
+          valsHash := vh
+          nextValsHash := nvh
+          vals := vals
+          commit := commit
+          trustedHeight := th
+          trustedVals := tvals
+          basicOk := (basic == "1") }
+      match TM.deliverUpdate TMD.Hv cl hdr now with
+      | .ok cl' => ({ st with tm := upd st.tm name (some cl') }, s!"res=ok | {TMD.dump cl'}")
+      | .error .notActive => (st, s!"res=clientNotActive | {TMD.dump cl}")
+      | .error .invalid => (st, s!"res=invalid | {TMD.dump cl}")
+    | _, _, _, _, _, _, _, _ => bad
+  | ["tm.status", name, now] =>
+    match st.tm name, now.toNat? with
+    | some cl, some now =>
+      let r := match TM.status cl now with | .active => "Active" | .expired => "Expired" | .unknown => "Unknown"
+      (st, s!"res={r}")
+    | _, _ => bad
+  | ["status", kind, ts, period, now] =>
+    match period.toNat?, now.toNat? with
+    | some pd, some now =>
+      let t : Option Nat := if ts == "-" then none else ts.toNat?
+      let r := if kind == "tm" then LCStatus.tm t pd now else LCStatus.eth t pd now
+      (st, "res=" ++ (match r with | .active => "Active" | .expired => "Expired" | .unknown => "Unknown"))
+    | _, _ => bad
   | ["auth", c, sh, dh, ph] =>
     match unhex sh, unhex dh, unhex ph with
     | some sc, some d, some pt =>
